@@ -2,6 +2,7 @@
 """Round-8 seeder prompt (ONE change, variant n): base prompt plus the list of changes tried in earlier rounds."""
 import json, sys, subprocess, glob, re
 pid = sys.argv[1]
+VAR = sys.argv[2] if len(sys.argv) > 2 else "n"
 tried = []
 for mf in sorted(glob.glob(f"/verif/seeded/{pid}-*/meta.json")):
     m = json.load(open(mf))
@@ -10,9 +11,9 @@ for mf in sorted(glob.glob(f"/verif/seeded/{pid}-*/meta.json")):
     if t:
         tried.append(t[:160])
 base = subprocess.check_output(["python3", "/verif/tools/seeder_prompt.py", pid], text=True)
-base = base.replace("produce TWO different, realistic code changes (call them a and b)", "produce ONE realistic code change (call it n)")
+base = base.replace("produce TWO different, realistic code changes (call them a and b)", f"produce ONE realistic code change (call it {VAR})")
 base = base.replace("For each change X in (a, b) write", "Write")
-base = base.replace(f"/tmp/seed/{pid}-out/X/", f"/tmp/seed/{pid}-out/n/")
+base = base.replace(f"/tmp/seed/{pid}-out/X/", f"/tmp/seed/{pid}-out/{VAR}/")
 base = base.replace("The two changes should break the property in different ways / different code sites.", "")
 base = base.replace("a short summary of both changes", "a short summary of the change")
 extra = ("\n\nROUND 8 — additional constraints. Other people have already tried the following changes for this property; do NOT repeat them or trivial variants of them, and use a DIFFERENT function/module or a different mechanism:\n"
